@@ -185,6 +185,54 @@ int main(int argc, char** argv)
                 ret(1, 1);
                 for (bool& b : suspended) b = false;
             }
+            else if (k == 8 && steals && elastic)
+            {
+                // work parked on sleeping workers must be taken over by the workers that are resumed: the
+                // whole pool is suspended, tasks are submitted, only a part of the pool is resumed, and the
+                // tasks must complete (and a later pool suspend must return) without resuming the rest
+                call(1, "suspend_pool", 0);
+                tp.suspend_direct();
+                ret(1, 1);
+                for (bool& b : suspended) b = true;
+                int n = 2 + (int) R.below(4);
+                for (int i = 0; i < n; ++i) submit(R.chance(1, 2) ? -1 : (int) R.below(NW));
+                int first = (int) R.below(NW);
+                int nres = 1 + (int) R.below(NW - 1);
+                for (int i = 0; i < nres; ++i)
+                {
+                    int rw = (first + i) % NW;
+                    on_actor(a, [&] {
+                        call(a, "resume_pu", rw);
+                        tp.resume_processing_unit_direct((std::size_t) rw);
+                        ret(a, 1);
+                    });
+                    suspended[rw] = false;
+                }
+                ev("await").done();
+                auto t0 = clk::now();
+                while (ndone.load() < nsub)
+                {
+                    std::this_thread::sleep_for(std::chrono::microseconds(200));
+                    if (clk::now() - t0 > std::chrono::seconds(12))
+                    {
+                        ev("quiescent").i("done", ndone.load()).i("submitted", nsub).done();
+                        vlog::flush();
+                        vlog::hang_pause();
+                        _exit(0);
+                    }
+                }
+                ev("awaited").done();
+                if (R.chance(1, 2))
+                {
+                    call(1, "suspend_pool", 0);
+                    tp.suspend_direct();
+                    ret(1, 1);
+                    call(1, "resume_pool", 0);
+                    tp.resume_direct();
+                    ret(1, 1);
+                    for (bool& b : suspended) b = false;
+                }
+            }
             else if (k == 7 && !steals && elastic)
             {
                 // a non-stealing pool must refuse to suspend one of its own PUs from inside
